@@ -4,7 +4,7 @@
      - the thread that calls ShutdownWithContext     (stop flag, closeListenersLocked, close(s.done), loop { closeIdleConns ; serving/open check ; ticker })
      - the environment: clients sending requests / closing, the clock
    with one label per atomic step that matters (stores to idleConnTime, s.stop / s.open / s.serving operations, the critical
-   section of closeIdleConns under idleConnsMu, reads and writes on the connection).
+   sections under idleConnsMu (closeIdleConns, the 'still tracked?' lookup), reads and writes on the connection).
 
    Requests are whole units: `inflight` counts requests the client has sent that are still in the socket, `buffered` those already
    in the connection's bufio.Reader.  A read from the connection moves everything in flight into the buffer (requests are small).
@@ -32,7 +32,9 @@ Inductive cpc :=
 | CLoopTop      (* registered in s.idleConns; top of the request loop: SetReadDeadline comes next *)
 | CPeek         (* in br.Peek(1): waiting for the first byte of the next request *)
 | CGotByte      (* Peek returned data; idleConnTime.Store(0) comes next *)
-| CActive       (* marked active; the request is read and parsed next *)
+| CActive       (* marked active (Store(0) done); s.stop.Load() comes next *)
+| CStopSeen     (* stop was 1: the lookup of c in s.idleConns (under idleConnsMu) comes next *)
+| CReady        (* still tracked, or no Shutdown running; the request is read and parsed next *)
 | CHandler      (* s.Handler(ctx) is running *)
 | CWrite        (* the handler returned; writeResponse / Flush come next *)
 | CWritten      (* response in the writer (flushed or not); idleConnTime.Store(ctx.time) comes next *)
@@ -96,7 +98,8 @@ Inductive label :=
 (* acceptor threads *)
 | LServeStart | LAccept (k : nat) | LOpenInc (c : nat) | LAcceptFail (k : nat)
 (* connection threads *)
-| LRegIdle (c : nat) | LSetDeadline (c : nat) | LPeekOk (c : nat) | LPeekFail (c : nat) | LStore0 (c : nat) | LReadReq (c : nat)
+| LRegIdle (c : nat) | LSetDeadline (c : nat) | LPeekOk (c : nat) | LPeekFail (c : nat) | LStore0 (c : nat)
+| LLoadStop (c : nat) | LLookup (c : nat) | LReadReq (c : nat)
 | LHandlerEnd (c : nat) | LAbandon (c : nat) | LHijack (c : nat)
 | LWrite (c : nat) (close : bool) | LStoreT (c : nat) | LCheckStop (c : nat) | LUnregIdle (c : nat) | LOpenDec (c : nat)
 (* ShutdownWithContext *)
@@ -115,12 +118,18 @@ Definition set_pc (r : conn) (p : cpc) : conn :=
   mkConn p (loopid r) (inmap r) (ival r) (tstart r) (srvClosed r) (cliClosed r) (inflight r) (buffered r) (unflushed r) (hijack r)
          (started r) (delivered r) (lost r) (lostc r) (abandoned r).
 
-(* leaving the loop: `if bw != nil { releaseWriter(s, bw) }` - what is still in the writer is dropped.  A hijack flushes the writer itself
-   before the hijack handler is started. *)
+(* leaving the loop on an error: `if bw != nil { releaseWriter(s, bw) }` - what is still in the writer is dropped (the connection is
+   broken anyway).  A hijack flushes the writer itself before the hijack handler is started. *)
 Definition exit_loop (r : conn) : conn :=
   mkConn CExiting (loopid r) (inmap r) (ival r) (tstart r) (srvClosed r) (cliClosed r) (inflight r) (buffered r) 0 (hijack r)
          (started r) (delivered r)
          (if cliClosed r then lost r else lost r + unflushed r) (if cliClosed r then lostc r + unflushed r else lostc r) (abandoned r).
+
+(* leaving the loop on the stop flag: `if bw != nil { err = bw.Flush() }; break` (since 66dbd41 the writer is flushed first) *)
+Definition flush_exit (r : conn) : conn :=
+  if srvClosed r || cliClosed r then exit_loop r
+  else mkConn CExiting (loopid r) (inmap r) (ival r) (tstart r) (srvClosed r) (cliClosed r) (inflight r) (buffered r) 0 (hijack r)
+              (started r) (delivered r + unflushed r) (lost r) (lostc r) (abandoned r).
 
 (* closeIdleConns looks at one entry of s.idleConns: t := ict.Load(); if t != 0 && now-t >= 0 { c.Close(); delete } *)
 Definition close_if_idle (t : Z) (r : conn) : conn :=
@@ -230,11 +239,31 @@ Definition step (cf : cfg) (s : st) (l : label) : option st :=
           end
       | None => None
       end
+  | LLoadStop c =>            (* if s.stop.Load() == 1 { ... } (since 3ea360e) *)
+      match nth_error (conns s) c with
+      | Some r =>
+          match pc r with
+          | CActive => Some (set_conns s (upd (conns s) c (set_pc r (if stop s then CStopSeen else CReady))))
+          | _ => None
+          end
+      | None => None
+      end
+  | LLookup c =>              (* idleConnsMu: _, tracked := s.idleConns[c]; if !tracked { break } - Shutdown closed it as idle *)
+      match nth_error (conns s) c with
+      | Some r =>
+          match pc r with
+          | CStopSeen =>
+              if inmap r then Some (set_conns s (upd (conns s) c (set_pc r CReady)))
+              else Some (set_conns s (upd (conns s) c (exit_loop r)))
+          | _ => None
+          end
+      | None => None
+      end
   | LReadReq c =>             (* the request is read from the buffer; ctx.time = now; s.Handler(ctx) is called *)
       match nth_error (conns s) c with
       | Some r =>
           match pc r with
-          | CActive =>
+          | CReady =>
               (* with ReadTimeout set the loop calls c.SetReadDeadline once more here; on a closed connection that ends the loop *)
               if deadlines cf && srvClosed r then Some (set_conns s (upd (conns s) c (exit_loop r))) else
               if 0 <? buffered r then
@@ -315,12 +344,12 @@ Definition step (cf : cfg) (s : st) (l : label) : option st :=
           end
       | None => None
       end
-  | LCheckStop c =>           (* if s.stop.Load() == 1 { break } *)
+  | LCheckStop c =>           (* if s.stop.Load() == 1 { bw.Flush(); break } *)
       match nth_error (conns s) c with
       | Some r =>
           match pc r with
           | CStoredT =>
-              if stop s then Some (set_conns s (upd (conns s) c (exit_loop r)))
+              if stop s then Some (set_conns s (upd (conns s) c (flush_exit r)))
               else Some (set_conns s (upd (conns s) c (set_pc r CLoopTop)))
           | _ => None
           end
@@ -425,23 +454,16 @@ Inductive reach (cf : cfg) : st -> Prop :=
 | reach_step s l s' : reach cf s -> step cf s l = Some s' -> reach cf s'.
 
 (* ---- the schedules on which every started handler is answered -------------------------------------------------------------
-   guard s l = true for every label except
-   (G1) a closeIdleConns pass that would close a connection which has request data in hand: received and not yet marked active
-        (thread between Peek's read and Store(0)), buffered, or in flight;
-   (G2) a request sent while an earlier request of that connection has not been answered yet (pipelining): only then can a
-        response sit unflushed in the writer when the stop flag is seen. *)
+   guard s l = true for every label except a closeIdleConns pass that would close a connection which has request data in hand:
+   received and not yet marked active (thread between Peek's read and Store(0)), buffered (pipelined), or in flight. *)
 Definition in_hand (r : conn) : bool :=
   (0 <? buffered r) || (0 <? inflight r) || match pc r with CGotByte => true | _ => false end.
 
 Definition would_close (t : Z) (r : conn) : bool := inmap r && negb (ival r =? 0) && (ival r <=? t).
 
-Definition answered_all (r : conn) : bool :=
-  (started r =? delivered r + lost r + lostc r) && (buffered r =? 0) && (inflight r =? 0).
-
 Definition guard (s : st) (l : label) : bool :=
   match l with
   | LCloseIdle => forallb (fun r => negb (would_close (now s) r && in_hand r)) (conns s)
-  | LSend c => match nth_error (conns s) c with Some r => answered_all r | None => true end
   | _ => true
   end.
 
